@@ -251,8 +251,49 @@ def c_pin_new(ex, st, key, argv, dest_ty, raw):
     return [Case(None, ap)]
 
 
+def c_newtype_conv(ex, st, key, argv, dest_ty, raw):
+    """From/Into between the u64 newtypes VarInt / StreamId / PushId / SessionId (field 0 carried over; these impls are
+    one-liners `Self(v.0)`, and the analysed code is generic in T so they only appear as trait calls)."""
+    def ap(ex, st, a):
+        v = deref(a[0])
+        if not isinstance(v, Obj):
+            raise Unsupported("newtype conversion of " + repr(v))
+        o = Obj(dest_ty)
+        o.fields[(None, 0)] = Cell(ex.field(v, None, 0, "u64").v)
+        return o
+    return [Case(None, ap)]
+
+
+def c_newtype_cmp(ex, st, key, argv, dest_ty, raw):
+    """Derived PartialOrd/PartialEq on the u64 newtypes = unsigned comparison of field 0 (proved for StreamId by the Kani
+    harness c16_streamid_order_is_numeric; VarInt and PushId derive the same impls on the same representation)."""
+    op = key.split("::")[-1]
+    import z3 as _z3
+    f = {"lt": _z3.ULT, "le": _z3.ULE, "gt": _z3.UGT, "ge": _z3.UGE, "eq": lambda a, b: a == b, "ne": lambda a, b: a != b}[op]
+
+    def ap(ex, st, a):
+        x = ex.field(deref(a[0]), None, 0, "u64").v
+        y = ex.field(deref(a[1]), None, 0, "u64").v
+        return f(x, y)
+    return [Case(None, ap)]
+
+
+def c_saturating_add(ex, st, key, argv, dest_ty, raw):
+    def ap(ex, st, a):
+        x, y = a[0], a[1]
+        n = x.size()
+        wide = z3.ZeroExt(1, x) + z3.ZeroExt(1, y)
+        return z3.If(z3.Extract(n, n, wide) == 1, z3.BitVecVal((1 << n) - 1, n), z3.Extract(n - 1, 0, wide))
+    return [Case(None, ap)]
+
+
 def std_contracts():
     return [
+        (r"^core::num::(usize|u64|u32)::saturating_add$", c_saturating_add),
+        (r"^(VarInt|StreamId|PushId|SessionId|T) as (From|Into)::(from|into)$", c_newtype_conv),
+        (r"^(VarInt|StreamId|PushId|T) as Partial(Ord|Eq)::(lt|le|gt|ge|eq|ne)$", c_newtype_cmp),
+        (r"^core::fmt::rt::Argument::new_|^Argument::new_|^Arguments::new|^format$|^core::fmt::rt::Argument", c_opaque),
+        (r"^must_use$", c_identity),
         (r" as Clone::clone$", c_clone),
         (r"^Option::cloned$|^Option::copied$", c_option_cloned),
         (r" as Try::branch$", c_try_branch),
@@ -268,7 +309,7 @@ def std_contracts():
         (r"^Result::unwrap$|^Result::expect$", c_unwrap("Result")),
         (r" as Deref::deref$| as DerefMut::deref_mut$|^Pin::get_mut$|^Pin::into_inner$|^Pin::as_mut$|^Pin::get_ref$|^Pin::get_unchecked_mut$", c_deref_like),
         (r"^Pin::new$|^Pin::new_unchecked$", c_pin_new),
-        (r" as IntoFuture::into_future$", c_identity),
+        (r"IntoFuture::into_future$", c_identity),
         (r"^Context::waker$", c_opaque),
         (r"^String::as_bytes$|^String::as_str$|^str::as_bytes$", c_opaque),
         (r" as ToString::to_string$|^alloc::fmt::format$|^std::fmt::format$|^core::fmt::rt::|^Arguments::new|^format_args|^std::fmt::Arguments::|^fmt::Arguments::", c_opaque),
